@@ -53,6 +53,7 @@ type Contract struct {
 	Timeout  int      // per-obligation solver time limit override (seconds)
 	Locks    int      // >0: the function may block on locks of this level or higher
 	Invokes  string   // schema contract: calls this function-typed parameter exactly once and returns its result
+	Iterates string   // schema contract: calls this function-typed parameter any number of times (stops at its first error)
 	NonBlocking []string // lock classes (Struct.field) whose acquisition in this function is assumed not to block
 	GhostMaps []string // fresh uninterpreted Int->Int maps available in the ensures clauses (per call site)
 	Ghost    []string // misc flags
@@ -318,6 +319,10 @@ func (cs *ContractSet) ParseContractText(file, pkgPath, pkgName, text string) {
 					cur.NonBlocking = append(cur.NonBlocking, pkgName+"."+f[0])
 					cs.Trust = append(cs.Trust, fmt.Sprintf("%s: acquisition of %s assumed non-blocking: %s", cur.Key, f[0], strings.Join(f[1:], " ")))
 				}
+			}
+		case "iterates":
+			if cur != nil {
+				cur.Iterates = strings.TrimSpace(rest)
 			}
 		case "invokes":
 			if cur != nil {
